@@ -69,6 +69,9 @@ def oracle(case, obs):
     rows = base.case_rows(case)
     key = {r[0]: r[5] for r in rows}
     default = base.ctx(case["platform"])["default"]
+    base_names = [r[0] for r in base.ctx(case["platform"])["rows"]]
+    cooperative = not case["blocked"] and case["dpw"] is None
+    registered = []
     out = []
     generic = False
     prev = {"mode": case["login"], "rounds": 0, "loglen": 0, "belief": "DUMMY"}
@@ -95,6 +98,14 @@ def oracle(case, obs):
             generic = bool(op[1])
         if rec["out"] in ("LOOP", "FUEL") or rec["out"].startswith("EXC:"):
             out.append((f"op {i} {op}: ended with {rec['out']}", flags))
+        # a cooperative device never makes a valid request fail: the lines have to reach it (in the level named)
+        known = base_names + registered
+        wants = {"A": op[1] if k == "A" else None, "G": asked, "g1": asked, "I": asked, "c": asked, "C": asked}.get(k)
+        refused_by_design = k in ("G", "g1") and generic
+        if cooperative and rec["out"] == "priv" and not refused_by_design and (wants is None or wants in known):
+            out.append((f"op {i} {op}: ScrapliPrivilegeError although the device cooperates and the level {wants!r} exists", flags))
+        if k == "R" and rec["out"] == "ok":
+            registered = registered + [op[1]]
         ulines = set(op_user_lines(op))
         if asked is not None:
             for (m, l) in seg:
@@ -155,7 +166,31 @@ def gen_cases(ck, tier):
             blocked = [((m, cmd), rng.choice(["refuse", "ignore"])) for m, cmd in rng.sample(tr, min(k, len(tr)))]
             dpw, sec, pwl = rng.choice(base.PW_VARIANTS + [(None, "", 3)] * 4)
             cases.append(mk(p, rng.choice(logins), h, blocked, dpw, sec, pwl))
+    for p, sets in SESSION_NAME_SETS.items():
+        for names in sets:
+            cases += list(session_histories(rng, p, names, 4 if tier == "quick" else 5))
+            cases += list(session_histories(rng, p, names, 0, budget=150 if tier == "quick" else 2000))
     return cases
+
+
+SESSION_NAME_SETS = {"cisco_nxos": [("sessA", "sessB")], "arista_eos": [("sessA", "other-b"), ("sessionA1", "sessionA2")]}
+
+
+def session_histories(rng, platform, names, nmax, budget=None):
+    """register / configure / register / configure ...: prompts are classified between registrations (sessions that share their
+    prompt pattern or not); all histories to length nmax, or a PRNG sample over more operations and every login level"""
+    c = base.ctx(platform)
+    alpha = ([("R", n) for n in names] + [("G", False, n, ["cfg a"]) for n in names] + [("c", "show a"), ("A", c["default"])])
+    if budget is None:
+        for n in range(2, nmax + 1):
+            for h in itertools.product(alpha, repeat=n):
+                if any(o[0] == "R" for o in h) and any(o[0] == "G" for o in h):
+                    yield mk(platform, c["default"], h)
+    else:
+        more = alpha + [("A", n) for n in names] + [("I", n, ["int a"]) for n in names] + [("G", True, names[0], ["cfg a", "badline"]),
+                                                                                          ("g", True), ("g", False)]
+        for _ in range(budget):
+            yield mk(platform, rng.choice(login_levels(platform)), [rng.choice(more) for _ in range(rng.choice([3, 4, 5, 6, 8]))])
 
 
 def run_sync(case):
@@ -283,7 +318,7 @@ def run(tier, seed):
         ck.proof_broken("translator gen/privgen.py", repr(e))
     ck.prove("ScrapliProps.C03", lemma_files=["ScrapliProps/C03Lemmas.lean", "ScrapliProps/C04.lean", "ScrapliProps/C04Lemmas.lean",
                                                "ScrapliProps/C04Loop.lean", "ScrapliProps/C04Reach.lean", "ScrapliModel/Priv/Table.lean",
-                                               "ScrapliModel/Priv/Device.lean", "ScrapliModel/Priv/Driver.lean"])
+                                               "ScrapliModel/Priv/Device.lean", "ScrapliModel/Priv/Driver.lean", "ScrapliModel/Priv/Cache.lean"])
     if tier == "thorough":
         ck.leanchecker("ScrapliProps.C03")
     load_findings(ck)
